@@ -1576,6 +1576,9 @@ func (e *termEngine) expandRaw(t *Term, depth int) *Term {
 		if fn == nil || !e.P.inPkg(fn) {
 			return nil
 		}
+		if e.P.expandKeep != nil && e.P.expandKeep(fn) {
+			return nil
+		}
 		if u.Op == "call" && fn.Signature.Results().Len() != 1 {
 			return nil
 		}
